@@ -15,6 +15,58 @@ use crate::{
 
 pub use self::validator::ConnectionValidator;
 
+/// Check that the largest responses allowed by the configuration fit in the
+/// fixed-size response buffer of the socket worker implementation in use.
+/// Otherwise, such responses would fail to serialize and never be sent.
+pub fn validate_response_sizes(config: &Config) -> anyhow::Result<()> {
+    use std::mem::size_of;
+
+    use aquatic_udp_protocol::{
+        AnnounceResponseFixedData, Ipv6AddrBytes, ResponsePeer, TorrentScrapeStatistics,
+        TransactionId,
+    };
+
+    // Action (i32) followed by response data
+    let max_announce_response_len = size_of::<i32>()
+        + size_of::<AnnounceResponseFixedData>()
+        + config
+            .protocol
+            .max_response_peers
+            .saturating_mul(size_of::<ResponsePeer<Ipv6AddrBytes>>());
+    let max_scrape_response_len = size_of::<i32>()
+        + size_of::<TransactionId>()
+        + (config.protocol.max_scrape_torrents as usize) * size_of::<TorrentScrapeStatistics>();
+
+    #[cfg(all(target_os = "linux", feature = "io-uring"))]
+    if config.network.use_io_uring {
+        if max_announce_response_len > self::uring::RESPONSE_BUF_LEN {
+            return Err(anyhow::anyhow!(
+                "protocol.max_response_peers is too large for io_uring response buffers"
+            ));
+        }
+        if max_scrape_response_len > self::uring::RESPONSE_BUF_LEN {
+            return Err(anyhow::anyhow!(
+                "protocol.max_scrape_torrents is too large for io_uring response buffers"
+            ));
+        }
+
+        return Ok(());
+    }
+
+    if max_announce_response_len > crate::common::BUFFER_SIZE {
+        return Err(anyhow::anyhow!(
+            "protocol.max_response_peers is too large for response buffer"
+        ));
+    }
+    if max_scrape_response_len > crate::common::BUFFER_SIZE {
+        return Err(anyhow::anyhow!(
+            "protocol.max_scrape_torrents is too large for response buffer"
+        ));
+    }
+
+    Ok(())
+}
+
 #[cfg(all(not(target_os = "linux"), feature = "io-uring"))]
 compile_error!("io_uring feature is only supported on Linux");
 
